@@ -87,7 +87,7 @@ def t_reinforce(E):
     E.refutable("adev.reinforce", E.eq(ot, SReal(dkv)))
 
 
-@task("adev.reparam_tailcall", props=["C29"], functions=[P + ":NormalREPARAM.before_tail_call", A + ":TailCallADEVPrimitive.jvp_estimate",
+@task("adev.reparam_tailcall", props=["C29", "C04"], functions=[P + ":NormalREPARAM.before_tail_call", A + ":TailCallADEVPrimitive.jvp_estimate",
                                                           P + ":Uniform.before_tail_call"])
 def t_reparam(E):
     z3 = E.z3
@@ -102,11 +102,53 @@ def t_reparam(E):
     E.prove("C29.NormalREPARAM.pathwise_form", E.Implies(
         E.eq(bp, SReal(mu.t + sg.t * eps.t)), E.Or(E.eq(bt, SReal(dmu.t + dsg.t * eps.t)), sg.t == 0)))
     out = E.method(prim, "jvp_estimate", k, (dual(E, mu, dmu), dual(E, sg, dsg)), (K.kpure, K.kdual))
+    # the result is the continuation applied to (some key, the dual produced by before_tail_call under some key) ...
+    from theory import keys as KY
+    op_t = z3.simplify(out.fields["primal"].t)
+    E.require("C29.TailCallADEVPrimitive.jvp_estimate.tail_calls_the_dual_continuation",
+              z3.is_app(op_t) and op_t.decl().name() == "kont_value")
+    kk, v = op_t.arg(0), op_t.arg(1)
+    used = KY.keys_in(v, k.t)
+    E.require("C29.TailCallADEVPrimitive.jvp_estimate.the_reparameterised_value_is_drawn_with_one_key", len(used) == 1)
+    # ... where before_tail_call itself splits the key it is given: re-run it on the parent of the sampling key
+    parent = KY.node(used[0])[0] if KY.node(used[0]) is not None else used[0]
+    d2 = E.method(prim, "before_tail_call", UVal(parent, "key"), (dual(E, mu, dmu), dual(E, sg, dsg)))
     E.prove("C29.TailCallADEVPrimitive.jvp_estimate.continues_with_the_reparameterised_dual", E.And(
-        E.eq(out.fields["primal"], SReal(K.val(k.t, bp))), E.eq(out.fields["tangent"], SReal(K.tan(k.t, bp, bt)))))
+        E.eq(out.fields["primal"], SReal(K.val(kk, d2.fields["primal"]))),
+        E.eq(out.fields["tangent"], SReal(K.tan(kk, d2.fields["primal"], d2.fields["tangent"])))))
+    # ... and the key handed to the rest of the program is independent of the key the noise was drawn with (two consecutive
+    # reparameterised sites must not share their noise), both derived from the caller's key
+    pair_key_discipline(E, k, [kk, used[0]], "TailCallADEVPrimitive.jvp_estimate")
+    E.prove("C29.TailCallADEVPrimitive.jvp_estimate.continuation_key_is_independent_of_the_sampling_key",
+            KY.independent(E.I, kk, used[0]))
     u = E.method(E.new(P + ":Uniform"), "before_tail_call", k, ())
     E.prove("C29.Uniform.no_parameter_dependence", E.eq(real_of(E, u.fields["tangent"]), 0.0))
     E.refutable("adev.reparam_tailcall", E.eq(bt, dmu))
+
+
+@task("adev.mv_normal_reparam", props=["C29"], functions=[P + ":MvNormalREPARAM.before_tail_call"])
+def t_mvn_reparam(E):
+    """pathwise derivative of mu + chol(cov) @ eps: jax.jvp must be applied at the primals WITH the tangents of the dual tree
+    (zero tangent for the noise)"""
+    z3 = E.z3
+    k = key(E)
+    seen = {}
+
+    def fake_jvp(I, f, primals, tangents):
+        seen["primals"], seen["tangents"] = list(I.iterate(primals)), list(I.iterate(tangents))
+        return (E.opaque("jvp_primal_out", "array"), E.opaque("jvp_tangent_out", "array"))
+    E.I.ext["jax.jvp"] = fake_jvp
+    mu, dmu = E.opaque("mu", "array"), E.opaque("dmu", "array")
+    cov, dcov = E.opaque("cov", "array"), E.opaque("dcov", "array")
+    E.I.abstract_methods[("array", "__len__")] = lambda I, s: SInt(E.ctx.fn("len_of", U, z3.IntSort())(s.t), True)
+    prim = E.new(P + ":MvNormalREPARAM")
+    st, d = E.attempt(lambda: E.method(prim, "before_tail_call", k, (dual(E, mu, dmu), dual(E, cov, dcov))))
+    E.require("C29.MvNormalREPARAM.before_tail_call.differentiates_through_jax_jvp", st == "ok" and "tangents" in seen)
+    ps, ts = seen["primals"], seen["tangents"]
+    E.require("C29.MvNormalREPARAM.before_tail_call.jvp_over_noise_mean_and_covariance", len(ps) == 3 and len(ts) == 3)
+    E.prove("C29.MvNormalREPARAM.before_tail_call.primals_are_the_parameter_primals", E.And(E.eq(ps[1], mu), E.eq(ps[2], cov)))
+    E.prove("C29.MvNormalREPARAM.before_tail_call.tangents_are_the_parameter_tangents", E.And(E.eq(ts[1], dmu), E.eq(ts[2], dcov)))
+    E.refutable("adev.mv_normal_reparam", E.eq(ps[1], cov))
 
 
 @task("adev.baseline_addcost", props=["C29"], functions=[P + ":Baseline.jvp_estimate", P + ":AddCost.jvp_estimate", P + ":baseline"])
